@@ -863,6 +863,7 @@ impl<TStdlib: Stdlib, TStdIn: Input, TStdOut: Printer, TLpt1: Printer>
     }
 
     fn verif_depths(&self) -> super::verif::Depths {
+        let (states, memory_blocks) = self.context.verif_counts();
         super::verif::Depths {
             value_stack: self.value_stack.len(),
             register_stack: self.register_stack.len(),
@@ -871,8 +872,8 @@ impl<TStdlib: Stdlib, TStdIn: Input, TStdOut: Printer, TLpt1: Printer>
             return_address_stack: self.return_address_stack.len(),
             go_sub_address_stack: self.go_sub_address_stack.len(),
             stacktrace: self.stacktrace.len(),
-            states: self.context.verif_states().len(),
-            memory_blocks: self.context.verif_blocks().len(),
+            states,
+            memory_blocks,
         }
     }
 
